@@ -1,6 +1,7 @@
 #include <stdio.h>
 #include <eav.h>
 #include <eav/private.h>
+#include <eav/verif_hooks.h>
 #include "utf8_decode.h"
 
 
@@ -47,7 +48,10 @@ is_6531_local (const char *start, const char *end)
         return inverse(EEAV_LPART_EMPTY);
 
     utf8_decode_init (start, end - start, &u);
-    while ((ch = utf8_decode_next (&u)) >= 0) {
+    while ((ch = utf8_decode_next (&u)) >= 0)
+    EAV_VERIF_LOOP(is_6531_local)
+    {
+        EAV_VERIF_STEP(is_6531_local)
         /* skip non-ASCII characters */
         if (ch > 0x007f)
             continue;
